@@ -71,7 +71,9 @@ def req_abandoned_send_scripts(scen0):
                    {"op": "send", "m": big}, {"op": "call_poll"}, {"op": "call_drop"}]
             if then == "send-then-recv":
                 ops += [{"op": "send", "m": [hx("B%d" % scen)]}, {"op": "call_poll"}, {"op": "credit", "c": 1}, {"op": "call_wait"}, {"op": "call_drop"}]
-            ops += [{"op": "credit", "c": 1}, {"op": "recv_poll"}, {"op": "preply", "m": [hx(""), hx("reply%d" % scen)]}, {"op": "call_wait"}, {"op": "quiescent"}, {"op": "recv_drop"}]
+            # once the socket counts the request (its recv is accepted), the peer must get the WHOLE request without anything else happening
+            ops += [{"op": "credit", "c": 1}, {"op": "recv_poll"}, {"op": "settle"}, {"op": "expect_wire", "c": 1, "m": [hx("")] + big, "if_pending": "recv"},
+                    {"op": "preply", "m": [hx(""), hx("reply%d" % scen)]}, {"op": "call_wait"}, {"op": "quiescent"}, {"op": "recv_drop"}]
             ops += [{"op": "send", "m": [hx("C%d" % scen)]}, {"op": "preply", "m": [hx(""), hx("rc%d" % scen)]}, {"op": "recv"}, {"op": "quiescent"}, {"op": "recv_drop"}]
             out.append({"scen": scen, "sock": "REQ", "ops": ops, "tag": "abandoned-send/%d/%s" % (k, then), "nojitter": True})
     return out
